@@ -81,9 +81,17 @@ def structural(ctx, sd, b, order, data, expect_name=None):
                 if id(later) in pos and pos[id(later)] < pos[id(w)]:
                     raise Violation(f'{type(later).__name__} (created after {type(w).__name__}) is written at '
                                     f'position {pos[id(later)]} before it ({pos[id(w)]})', None, data('width-first'))
+    # every output unit the graph function created is in the definition (outputs are never dead code)
+    for w in order:
+        if type(w).__name__ in OUT_CLASSES and id(w) not in pos:
+            raise Violation(f'the {type(w).__name__} unit the graph function created is missing from the emitted '
+                            f'definition (units written: {[u["cls"] for u in d["ugens"]]})', None, data('lost-output'))
     ctx.obligations += 1
     ctx.discharged += 1
     return d
+
+
+OUT_CLASSES = ('Out', 'ReplaceOut', 'OffsetOut', 'LocalOut', 'XOut')
 
 
 def desc_agree(ctx, sd, b, d, data, controls=None, gate=None):
@@ -230,6 +238,54 @@ def fam_iobus(ctx):
     desc_agree(ctx, sd, b, d, data)
     ctx.note('iobus')
     return {'fam': 'iobus', 'rates': rates}
+
+
+SHARED = ['square', 'two-channels', 'muladd-twice', 'pan', 'sum4-square', 'neg-twice']
+
+
+def fam_shared(ctx):
+    """an operator the optimiser rewrites (fused sum, MulAdd, negation folded into a subtraction) that ONE consumer reads
+    on two of its inputs"""
+    m = U()
+    c1, c2 = ctx.real('c1'), ctx.real('c2')
+    k = ctx.choose('shape', len(SHARED))
+    rec = {'mode': 'nrt', 'names': ['c1', 'c2'], 'sel': {'shape': k}}
+    data = _data('shared', rec)
+    if isinstance(c1, SymReal):
+        sdsym.avoid(ctx, [c1, c2], [201, 202, 203, 0, 1, -1])
+    shape = SHARED[k]
+
+    def g():
+        n, o, iou, pan = m['nse'], m['ocl'], m['iou'], m['pan']
+        a, b, c = n.LFNoise0.ar(201), n.LFNoise0.ar(202), n.LFNoise0.ar(203)
+        if shape == 'square':
+            s = a + b + c
+            iou.Out.ar(0, s * s)
+        elif shape == 'two-channels':
+            s = a + b + c
+            iou.Out.ar(0, [s, s])
+        elif shape == 'muladd-twice':
+            mm = a * c1 + c2
+            iou.Out.ar(0, o.SinOsc.ar(mm, mm))
+        elif shape == 'pan':
+            s = a + b + c
+            iou.Out.ar(0, pan.Pan2.ar(s, s))
+        elif shape == 'sum4-square':
+            s = a + b + c + n.LFNoise0.ar(204)
+            iou.Out.ar(0, s * s)
+        else:
+            s = a - (-b)
+            iou.Out.ar(0, [s, s * s])
+    try:
+        sd, b_, order = build('shared', g)
+    except (PathAbort, Inconclusive, Violation):
+        raise
+    except Exception as e:
+        raise Violation(f'valid graph does not compile: {type(e).__name__}: {e}', None, data('compile'))
+    d = structural(ctx, sd, b_, order, data, 'shared')
+    desc_agree(ctx, sd, b_, d, data)
+    ctx.note('shared')
+    return {'fam': 'shared', 'shape': shape}
 
 
 def _data(fam, rec):
@@ -528,6 +584,8 @@ def job(j):
         h = lambda c: fam_controls(c, j['v'])      # noqa
     elif fam == 'iobus':
         h = fam_iobus
+    elif fam == 'shared':
+        h = fam_shared
     elif fam == 'operators':
         h = lambda c: fam_operators(c, j['names'])     # noqa
     elif fam == 'invalid':
@@ -593,6 +651,8 @@ def replay(rec):
             fam_controls(ctx, rec['v'])
         elif fam == 'iobus':
             fam_iobus(ctx)
+        elif fam == 'shared':
+            fam_shared(ctx)
         elif fam == 'operators':
             fam_operators(ctx, [tuple(x) for x in rec['opnames']])
         elif fam == 'invalid':
@@ -633,7 +693,7 @@ def main(tier, seed):
                 jobs.append(dict(fam='controls', v=dict(sizes=list(sizes), gate=gate, rates=r)))
     kinds = ['rate', 'rate-mixed', 'nan', 'nan-arith', 'str', 'none', 'filter-rate', 'nan-unit']
     jobs += [dict(fam='invalid', kind=k) for k in kinds]
-    jobs += [dict(fam='iobus')]
+    jobs += [dict(fam='iobus'), dict(fam='shared')]
     from . import c01 as _c01
     opn = [('unary', n) for n in _c01.UN_SRC] + [('binary', n) for n in _c01.BIN_SRC] + \
         [('out', n) for n in ('XOut', 'LocalOut', 'ReplaceOut', 'OffsetOut')]
@@ -641,7 +701,7 @@ def main(tier, seed):
         jobs.append(dict(fam='operators', names=opn[i:i + 12]))
     for r in run_jobs('vf.props.c02', 'job', jobs, 'nrt'):
         chk.add('families', r)
-    chk.require_notes('families', ['wide', 'multi', 'many', 'name', 'name-rejected', 'controls', 'iobus', 'operators'] +
+    chk.require_notes('families', ['wide', 'multi', 'many', 'name', 'name-rejected', 'controls', 'iobus', 'shared', 'operators'] +
                       ['rejected:' + k for k in kinds])
     chk.programs = sum(a.get('paths', 0) for a in chk.parts.values())
     chk.bounds = {'families': ['width-first x optimiser rewrite (%d variants)' % len(wide), 'multi-output/nested '
